@@ -15,7 +15,7 @@ def revcomp(s):
 
 
 class Seg:
-    __slots__ = ("id", "seq", "sn", "so", "sr", "extra")
+    __slots__ = ("id", "seq", "sn", "so", "sr", "extra", "bo", "no")
 
     def __init__(self, id, seq, sn, so, sr, extra=()):
         self.id, self.seq, self.sn, self.so, self.sr, self.extra = id, seq, sn, so, sr, tuple(extra)
